@@ -127,8 +127,10 @@ def falsify(ctx, deep=False):
         inp = gen_input(rng, gauss=(i % (3 if deep else 6) == 0))
         inputs.append(inp)
         if i % 5 == 0:
-            # history: the same (N, wavelength, magnification, z) again on grids of other spacings
-            for sc in (0.75, 1.5):
+            # history: the same (N, wavelength, magnification, z) again on grids of other spacings (coarser only: the
+            # absolute distance is kept, and a finer grid / narrower beam would put z beyond the 1.5 Rayleigh ranges
+            # within which the 128-pixel grids still contain the beam)
+            for sc in (1.25, 1.5):
                 v = dict(inp); v["d1"] = inp["d1"] * sc; v["w0"] = inp["w0"] * sc
                 v["gz"] = inp["zfrac"] * numpy.pi * inp["w0"] ** 2 / inp["wvl"]
                 inputs.append(v)
